@@ -180,6 +180,10 @@ def inplace_batches(tier, rng, n_cases):
                 # re-tagged: another message type (generic payload types only: no validator involved)
                 q.ty = rng.choice([0x0110, 0x0210, 0x0310, 0xFF10, 0x7B10])
                 pre.append("pk plsettype p%d %d" % (i, q.ty))
+            elif r < 0.88:
+                # marked invalid by the application after it was filled (type 0): the bytes are still there and still have to be framed
+                q.ty = 0
+                pre.append("pk plsettype p%d 0" % i)
             define.append(p)
             final.append(q)
         if not pre:
